@@ -5,7 +5,8 @@
 //
 // FuncKey and targ are what go2coq prints ("fn.GMax", "U32"; targ is I64 for a function without a
 // type parameter).  args and results are comma-separated decimal integers (bool: 0/1, error: 0 for
-// nil / 1), "-" for an empty list, and results is "panic" when the call panicked.  For a method the
+// nil / 1), "-" for an empty list, and results is "panic" when the call panicked.  A slice (package
+// t/sl, the GoLiteL fragment) is one item "[e1:e2:...]", "[]" when empty or nil.  For a method the
 // receiver's fields come first among the arguments, and for a pointer-receiver method their final
 // values are appended to the results (fparams / fouts of the generated fundef).
 package main
@@ -20,6 +21,7 @@ import (
 	"strings"
 
 	"t/fn"
+	"t/sl"
 	"t/sub"
 )
 
@@ -155,6 +157,53 @@ var table = []entry{
 	{key: "fn.RetCall", f: fn.RetCall}, {key: "fn.RetCallErr", f: fn.RetCallErr}, {key: "fn.RetCallNested", f: fn.RetCallNested},
 	{key: "fn.GRetCall", targ: "I64", f: fn.GRetCall[int]}, {key: "fn.GRetCall", targ: "U64", f: fn.GRetCall[uint64]},
 	{key: "fn.GRetCall", targ: "U32", f: fn.GRetCall[uint32]}, {key: "fn.GRetCall", targ: "U8", f: fn.GRetCall[uint8]},
+
+	// ---- the slice fragment (GoLiteL)
+	{key: "sl.Iota", f: sl.Iota}, {key: "sl.Squares", f: sl.Squares}, {key: "sl.U8Wrap", f: sl.U8Wrap},
+	{key: "sl.MakeFill", f: sl.MakeFill}, {key: "sl.MakeNeg", f: sl.MakeNeg},
+	{key: "sl.StoreAt", f: sl.StoreAt, pools: map[int][]int64{0: small, 1: small, 2: {5, -9}}, cross: true},
+	{key: "sl.StoreThenDiv", f: sl.StoreThenDiv, pools: map[int][]int64{0: small, 1: {0, 1, -3, 20}}, cross: true},
+	{key: "sl.Reverse", f: sl.Reverse}, {key: "sl.OpAssignIdx", f: sl.OpAssignIdx}, {key: "sl.VarDeclMake", f: sl.VarDeclMake},
+	{key: "sl.Sum", f: sl.Sum}, {key: "sl.SumIdx", f: sl.SumIdx}, {key: "sl.Dot", f: sl.Dot, cross: true},
+	{key: "sl.RangeNoVars", f: sl.RangeNoVars}, {key: "sl.RangeKeyGrow", f: sl.RangeKeyGrow},
+	{key: "sl.NestedRange", f: sl.NestedRange, cross: true},
+	{key: "sl.EarlyReturn", f: sl.EarlyReturn, pools: map[int][]int64{1: {0, 1, 2, 3, -1, math.MaxInt64, 7}}, cross: true},
+	{key: "sl.SwitchInRange", f: sl.SwitchInRange}, {key: "sl.CountWhere", f: sl.CountWhere},
+	{key: "sl.Len2", f: sl.Len2, cross: true},
+	{key: "sl.At", f: sl.At, pools: map[int][]int64{1: small}, cross: true},
+	{key: "sl.AtU8", f: sl.AtU8, pools: map[int][]int64{1: {0, 1, 2, 3, 6, 7, 11, 12, 255}}, cross: true},
+	{key: "sl.AtConst", f: sl.AtConst},
+	{key: "sl.Variadic", f: sl.Variadic, pools: map[int][]int64{0: {0, 1, -5, math.MaxInt64}}, cross: true},
+	{key: "sl.NamedSlice", f: sl.NamedSlice}, {key: "sl.NilReturn", f: sl.NilReturn},
+	{key: "sl.CallScalar", f: sl.CallScalar},
+	{key: "sl.CallScalarPanics", f: sl.CallScalarPanics, pools: map[int][]int64{1: {0, 1, -1, 3}}, cross: true},
+	{key: "sl.CallSlice", f: sl.CallSlice}, {key: "sl.CallTwoRes", f: sl.CallTwoRes},
+	{key: "sl.ReturnCall", f: sl.ReturnCall}, {key: "sl.ReturnCallMulti", f: sl.ReturnCallMulti},
+	{key: "sl.PassParam", f: sl.PassParam, pools: map[int][]int64{1: {0, 1, 2, -1, 100}}, cross: true},
+	{key: "sl.ShadowSlice", f: sl.ShadowSlice},
+}
+
+// small indexes and lengths, some out of range
+var small = []int64{0, 1, 2, 3, 6, 7, 8, -1, 12, math.MaxInt64, math.MinInt64}
+
+// slice arguments: for every shape, the elements are the pool values of the element type at these positions
+var shapes = [][]int{{}, {0}, {1}, {1, 5, 7}, {0, 1, 2, 3, 4, 5}, {3, 3, 3}, {4, 2, 9, 7, 12, 1, 5},
+	{10, 11, 12, 13, 14, 15, 16, 17, 18, 19, 20, 21}, {5, 0, 1}, {23, 22, 21, 20, 9, 8, 7, 6, 30, 31, 32, 33, 34, 35, 36, 2}}
+
+func slicePool(t reflect.Type) []val {
+	ep := pool(t.Elem())
+	var vs []val
+	for _, sh := range shapes {
+		v := reflect.MakeSlice(t, 0, len(sh))
+		var ss []string
+		for _, i := range sh {
+			e := ep[i%len(ep)]
+			v = reflect.Append(v, e.v)
+			ss = append(ss, e.s)
+		}
+		vs = append(vs, val{"[" + strings.Join(ss, ":") + "]", v})
+	}
+	return vs
 }
 
 // ---- value pools per kind: 0, 1, -1 / max, min, max first (the corner cross product uses the
@@ -234,6 +283,9 @@ func ambient(s reflect.Value) {
 
 func pool(t reflect.Type) []val {
 	var bits []uint64
+	if t.Kind() == reflect.Slice {
+		return slicePool(t)
+	}
 	switch t.Kind() {
 	case reflect.Int, reflect.Int64:
 		for _, x := range poolI {
@@ -259,6 +311,12 @@ func pool(t reflect.Type) []val {
 
 func show(v reflect.Value) string {
 	switch v.Kind() {
+	case reflect.Slice:
+		var ss []string
+		for i := 0; i < v.Len(); i++ {
+			ss = append(ss, show(v.Index(i)))
+		}
+		return "[" + strings.Join(ss, ":") + "]"
 	case reflect.Int, reflect.Int64:
 		return fmt.Sprint(v.Int())
 	case reflect.Uint64, reflect.Uint, reflect.Uintptr, reflect.Uint32, reflect.Uint8:
@@ -427,7 +485,11 @@ func main() {
 					}
 				}()
 				var rs []string
-				for _, o := range fv.Call(in) {
+				call := fv.Call
+				if ft.IsVariadic() {
+					call = fv.CallSlice // the variadic parameter is given as a slice
+				}
+				for _, o := range call(in) {
 					rs = append(rs, show(o))
 				}
 				if ptr {
